@@ -534,6 +534,129 @@ arc4random_buf (void *buf, size_t n)
     }
 }
 
+/* ------------------------------------------------------------------ the fallback chain of get_random_bytes
+   (flavour norand: util-get-random-bytes.c is compiled without arc4random_buf and with its OS primitives renamed
+   to the xcv_* functions below -- tools/build.sh).  A schedule string gives the answer of each successive source
+   attempt: K = the whole request, S = short (half of it), F/I/P = -1 with ENOSYS/EINTR/EPERM, N = open() fails.
+   Every attempt is recorded; only a K answer counts as delivered entropy (ent_fill).  spec/Random.tla */
+static char rs_sched[128];
+static int rs_pos, rs_on, rs_open_fds, rs_pending;
+struct att { char src, ans; int n, err; };
+static struct att atts[32];
+static int natts;
+#define FAKE_FD 9870
+static char
+rs_next (void)
+{
+  return rs_sched[rs_pos] ? rs_sched[rs_pos++] : 'K';
+}
+static void
+rs_log (char src, char ans, size_t n, int err)
+{
+  if (natts < 32)
+    atts[natts++] = (struct att) { src, ans, (int) n, err };
+}
+static int
+rs_errno_of (char a)
+{
+  return a == 'I' ? EINTR : a == 'P' ? EPERM : a == 'N' ? ENOENT : ENOSYS;
+}
+static void
+rs_partial (void *buf, size_t n, char src)
+{
+  memset (buf, 0xA0 | (src & 0x0f), n / 2);     /* recognisable: never what ent_fill produces for a whole request */
+}
+/* answers one attempt of a getentropy-like (full or fail) or getrandom-like (full, short or fail) source */
+static long
+rs_answer (char src, void *buf, size_t n, int entropy_like)
+{
+  char a = rs_next ();
+  if (a == 'K')
+    {
+      ent_fill (buf, n);
+      rs_log (src, 'K', n, 0);
+      return entropy_like ? 0 : (long) n;
+    }
+  if (a == 'S' && !entropy_like)
+    {
+      rs_partial (buf, n, src);
+      rs_log (src, 'S', n, 0);
+      return (long) (n / 2);
+    }
+  if (a == 'S' || a == 'N')
+    a = 'F';
+  errno = rs_errno_of (a);
+  rs_log (src, a, n, errno);
+  return -1;
+}
+int
+xcv_getentropy (void *buf, size_t n)
+{
+  if (!rs_on)
+    return getentropy (buf, n);
+  return (int) rs_answer ('e', buf, n, 1);
+}
+ssize_t
+xcv_getrandom (void *buf, size_t n, unsigned int flags)
+{
+  if (!rs_on)
+    return getrandom (buf, n, flags);
+  return rs_answer ('r', buf, n, 0);
+}
+long
+xcv_syscall (long nr, long a, long b, long c, long d, long e, long f)
+{
+  if (rs_on && nr == 318 /* SYS_getrandom */)
+    return rs_answer ('R', (void *) a, (size_t) b, 0);
+  return syscall (nr, a, b, c, d, e, f);
+}
+int
+xcv_open (const char *path, int flags, ...)
+{
+  if (!rs_on || strcmp (path, "/dev/urandom"))
+    return (int) syscall (257 /* SYS_openat */, -100, path, flags, 0);
+  char a = rs_next ();
+  if (a == 'N')
+    {
+      errno = ENOENT;
+      rs_log ('u', 'N', 0, errno);
+      return -1;
+    }
+  rs_pending = a;
+  rs_open_fds++;
+  return FAKE_FD;
+}
+ssize_t
+xcv_read (int fd, void *buf, size_t n)
+{
+  if (fd != FAKE_FD)
+    return (ssize_t) syscall (0 /* SYS_read */, fd, buf, n);
+  char a = (char) rs_pending;
+  if (a == 'K')
+    {
+      ent_fill (buf, n);
+      rs_log ('u', 'K', n, 0);
+      return (ssize_t) n;
+    }
+  if (a == 'S')
+    {
+      rs_partial (buf, n, 'u');
+      rs_log ('u', 'S', n, 0);
+      return (ssize_t) (n / 2);
+    }
+  errno = a == 'I' ? EINTR : EIO;
+  rs_log ('u', a == 'I' ? 'I' : 'F', n, errno);
+  return -1;
+}
+int
+xcv_close (int fd)
+{
+  if (fd != FAKE_FD)
+    return (int) syscall (3 /* SYS_close */, fd);
+  rs_open_fds--;
+  return 0;
+}
+
 /* ------------------------------------------------------------------ objects */
 #define NOBJ 8
 #define REGION (12 * 4096)
@@ -1062,6 +1185,12 @@ main (int argc, char **argv)
         stack_mode = atoi (t0);
       else if (!strcmp (cmd, "fault"))
         { fault_at = atoi (t0); fault_at2 = t1[0] ? atoi (t1) : 0; }
+      else if (!strcmp (cmd, "rsched"))
+        { /* rsched <answers|-> : answers of the successive source attempts of get_random_bytes (norand flavour) */
+          rs_on = strcmp (t0, "-") != 0;
+          snprintf (rs_sched, sizeof rs_sched, "%s", rs_on && strcmp (t0, "=") ? t0 : "");
+          rs_pos = 0;
+        }
       else if (!strcmp (cmd, "errno"))
         ein_mode = !strcmp (t0, "keep") ? -1 : atoi (t0);
       else if (!strcmp (cmd, "entropy"))
@@ -1291,6 +1420,7 @@ main (int argc, char **argv)
           memset (gbuf, 0xc3, 64 + gcap + 64);
           a_out = (char *) gbuf + 64;
           int ec0 = ent_calls;
+          natts = 0;
           if (scan_on)
             {
               /* C09: the random bytes crypt_gensalt draws itself must not survive the call.
@@ -1360,6 +1490,13 @@ main (int argc, char **argv)
             emit_outfield ("buf", (const unsigned char *) (libbase + gs->off), GS_SIZE);
           else
             fprintf (out, ",\"buf\":[],\"bufk\":\"none\"");
+          if (rs_on)
+            {
+              fprintf (out, ",\"rs\":1,\"fdo\":%d,\"att\":[", rs_open_fds);
+              for (int i = 0; i < natts; i++)
+                fprintf (out, "%s{\"s\":\"%c\",\"a\":\"%c\",\"n\":%d,\"err\":%d}", i ? "," : "", atts[i].src, atts[i].ans, atts[i].n, atts[i].err);
+              fprintf (out, "]");
+            }
           fprintf (out, ",\"entcalls\":%d,\"ent\":", ent_calls - ec0);
           if (ent_calls > ec0 && ent_mode == 0) jstr_codes (ent_last, ent_last_n); else fprintf (out, "[]");
           emit_statics_written ();
